@@ -59,6 +59,8 @@ def run(P, rep, tier):
     part('R09.11', lambda: r_white_space(P, rep))
     part('R09.17', lambda: r_pp_number(P, rep))
     part('R09.18', lambda: r_result_white_space(P, u, rep))
+    part('R09.19', lambda: r_definition_static(P, u, rep))
+    part('R09.20', lambda: r_observed_sequence(P, rep))
     if r is not None:
         part('R09.8', lambda: r_builtins(P, u, rep, r[0], r[1]))
         part('R09.10', lambda: r_lookup(P, u, rep))
@@ -235,6 +237,7 @@ def r_expand(P, u, rep):
                'the hide set given to the %s replacement is the union of %s; Prosser\'s algorithm requires %s (a missing name means re-expansion / non-termination, a surplus name suppresses legitimate expansions)' % (kind, leaves, want),
                where=where, facts=facts)
     _objlike_paste(P, u, rep, objlike_passes)
+    _definition_untouched(P, u, rep, it, paths)
     _splice_flags(P, u, rep, it, paths)
     _only_first_token_stamped(P, u, rep, it, paths)
     if n_obj == 0:
@@ -269,6 +272,8 @@ def _objlike_paste(P, u, rep, objlike_passes):
             it, paths, classes = explore_list_pass(P, u, g)
             for ctx, out in paths:
                 body, _ = chain(it, ctx.body, limit=16)
+                if out[0] == 'ret':
+                    _pass_leaves_stored_list(it, ctx, A, g, wg, body)
                 cl = [cls_of(b) for b in body]
                 n = len(body)
                 while n and 'kind' in body[n - 1].fields and it.settle(body[n - 1].fields['kind']) == eof:
@@ -507,6 +512,248 @@ def _splice_flags(P, u, rep, it, paths):
     A.flush()
     if n == 0:
         rep.undecided('R09.15', '%s:%s:no-empty-replacement-path' % (U, fn), 'no expanding path on which the replacement may be empty was found', where=where)
+
+
+# ------------------------------------------- the definition is not changed by its use ---
+R0919 = ('a macro definition stays as #define stored it until the name is redefined or undefined (C11 6.10.3p9/p10: every later occurrence of the name is '
+         'replaced by THE replacement list of the definition; 6.10.3.5p1: the definition lasts until #undef): expanding a macro reads the definition and never '
+         'writes it - no path of expand_macro stores into the Macro that find_macro returned, into a token of its stored replacement list or into its '
+         'parameter list; a pass over the replacement list of an object-like macro writes only the copies it makes; and no function that carries out a '
+         'replacement (everything expand_macro reaches in preprocess.c) assigns through a Macro * / MacroParam *')
+
+
+def _norm_type(t):
+    import re
+    t = re.sub(r'\b(struct|const|volatile|restrict)\b', '', t or '')
+    return t.replace(' ', '')
+
+
+DEF_RECORDS = ('Macro', 'MacroParam')
+ASSIGN_OPS = ('=', '+=', '-=', '*=', '/=', '%=', '&=', '|=', '^=', '<<=', '>>=')
+
+
+def _record_stores(fnode):
+    """stores of one function that go through a pointer to (or an object of) a definition record:
+    [(record, field or '<whole object>', line, 'store' | 'address')]"""
+    out = []
+    for n in fnode.walk():
+        lhs = None
+        how = 'store'
+        if n.kind in ('BinaryOperator', 'CompoundAssignOperator') and n.opcode in ASSIGN_OPS and n.inner:
+            lhs = n.inner[0]
+        elif n.kind == 'UnaryOperator' and n.opcode in ('++', '--') and n.inner:
+            lhs = n.inner[0]
+        elif n.kind == 'UnaryOperator' and n.opcode == '&' and n.inner:
+            lhs = n.inner[0]
+            how = 'address'
+        if lhs is None:
+            continue
+        x = lhs.strip()
+        first = True
+        while True:
+            if x.kind == 'MemberExpr' and x.inner:
+                b = x.inner[0]
+                bt = _norm_type(b.dtype or b.type)
+                for r in DEF_RECORDS:
+                    # the member written is a member of the record itself (m->body = .., m->body->next is a token's member)
+                    if bt in (r + '*', r) and first:
+                        out.append((r, x.name, n.line, how))
+                first = False if x.kind == 'MemberExpr' and (b.dtype or b.type or '').rstrip().endswith('*') else first
+                x = b.strip()
+                continue
+            if x.kind == 'ArraySubscriptExpr' and x.inner:
+                x = x.inner[0].strip()
+                first = False
+                continue
+            if x.kind == 'UnaryOperator' and x.opcode == '*' and x.inner:
+                bt = _norm_type(x.inner[0].dtype or x.inner[0].type)
+                for r in DEF_RECORDS:
+                    if bt == r + '*' and first and how == 'store':
+                        out.append((r, '<whole object>', n.line, how))
+                first = False
+                x = x.inner[0].strip()
+                continue
+            break
+    return out
+
+
+def _replacement_machinery(u):
+    """functions of the unit that expand_macro reaches through direct calls; the token-stream function preprocess2 (reached
+    for the expansion of arguments) is looked at itself, but what it calls - the directive handlers - defines macros"""
+    for f in ('expand_macro', 'preprocess2'):
+        if f not in u.functions:
+            raise AnalysisBroken('anchor %s vanished' % f)
+    seen, todo = [], ['expand_macro']
+    while todo:
+        f = todo.pop()
+        if f in seen or f not in u.functions:
+            continue
+        seen.append(f)
+        if f == 'preprocess2':
+            continue
+        for c in u.fn(f).walk():
+            g = c.callee() if c.kind == 'CallExpr' else None
+            if g:
+                todo.append(g)
+    return seen
+
+
+def _definition_fields(u, machinery):
+    """{record: members that the defining functions (outside the replacement machinery) store when a macro is defined}"""
+    out = {r: set() for r in DEF_RECORDS}
+    for f in u.functions:
+        if f in machinery:
+            continue
+        for r, fld, line, how in _record_stores(u.fn(f)):
+            if how == 'store':
+                out[r].add(fld)
+    return out
+
+
+def r_definition_static(P, u, rep):
+    """R09.19, whole functions: no function of the replacement machinery assigns through a Macro * / MacroParam *"""
+    rep.rule('R09.19', R0919, floor=12)
+    mach = _replacement_machinery(u)
+    deff = _definition_fields(u, mach)
+    if not deff['Macro']:
+        raise AnalysisBroken('no function outside the replacement machinery stores a member of a Macro: the defining functions are not recognised')
+    for f in mach:
+        where = '%s:%d' % (U, u.fn(f).line)
+        bad = False
+        for r, fld, line, how in _record_stores(u.fn(f)):
+            bad = True
+            w = '%s:%d' % (U, line)
+            if how == 'address':
+                rep.undecided('R09.19', '%s:%s:address-of-definition-member(%s.%s)' % (U, f, r, fld), '%s takes the address of the member %s of a %s: the rule cannot tell what is stored through it' % (f, fld, r), where=w)
+            elif fld in deff[r] or fld == '<whole object>':
+                rep.ob('R09.19', '%s:%s:definition-member-written(%s.%s)' % (U, f, r, fld), False,
+                       '%s, which runs as part of every replacement, assigns the member %s of a %s - a member the defining functions (%s) set when the macro is defined: the stored definition is rewritten by a use of the macro, so the next occurrence of the name is replaced by something else than the replacement list of its #define (a stored replacement list that has been through one round of ## / parameter substitution is processed AGAIN by the next expansion: `#define hash_hash # ## #` gives the token ## once and is rejected the second time, C11 6.10.3.3p4 EXAMPLE)' % (
+                           f, fld, r, ', '.join(sorted(g for g in u.functions if g not in mach and any(x[0] == r and x[3] == 'store' for x in _record_stores(u.fn(g)))))), where=w)
+            else:
+                rep.undecided('R09.19', '%s:%s:bookkeeping-member-written(%s.%s)' % (U, f, r, fld), '%s assigns the member %s of a %s, which is not a member the defining functions set: whether later replacements depend on it is not decided' % (f, fld, r), where=w)
+        if not bad:
+            rep.ob('R09.19', '%s:%s:assigns-no-member-of-a-definition' % (U, f), True, '', where=where)
+
+
+def _definition_untouched(P, u, rep, it, paths):
+    """R09.19, path by path in expand_macro: the objects reachable from the Macro that find_macro returned (as they were
+    before the path stored anything) are never the target of a store"""
+    fn = 'expand_macro'
+    rep.rule('R09.19', R0919, floor=12)
+    A = Agg(rep)
+    where = '%s:%d' % (U, u.fn(fn).line)
+    mach = _replacement_machinery(u)
+    deff = _definition_fields(u, mach)
+    n = 0
+    for ctx, out, rest in paths:
+        m = None
+        for e in ctx.events:
+            if e[0] == 'call' and e[1] == 'find_macro':
+                m = it.settle(e[4])
+        if not isinstance(m, Obj):
+            continue
+        names = [e[1] for e in ctx.events if e[0] == 'call']
+        if out[0] != 'ret':
+            kind = 'diagnosing'
+        elif isinstance(it.settle(out[1]), int) and it.settle(out[1]) == 0:
+            kind = 'refusing'
+        else:
+            kind = 'builtin' if any(e[0] == 'icall' for e in ctx.events) else ('funclike' if 'read_macro_args' in names else 'objlike')
+        stores = [e for e in ctx.events if e[0] == 'fstore' and isinstance(e[1], Obj)]
+        first_old = {}
+        for e in stores:
+            first_old.setdefault((id(e[1]), e[2]), e[3])
+        reach = {id(m): (m, 'the Macro')}
+        todo = [m]
+        while todo:
+            o = todo.pop()
+            via = reach[id(o)][1]
+            flds = dict(o.fields)
+            for (oid, f), old in first_old.items():
+                if oid == id(o):
+                    flds[f] = old
+            for f, v in flds.items():
+                if v is None:
+                    continue
+                cands = [v.proj(c) for c in v.cell.cands] if isinstance(v, View) else [v]
+                for x in cands:
+                    if isinstance(x, Obj) and id(x) not in reach:
+                        reach[id(x)] = (x, '%s->%s' % (via, f) if o is m else via)
+                        todo.append(x)
+        facts = {'path': ctx.trail}
+        bad = False
+        for e in stores:
+            if id(e[1]) not in reach:
+                continue
+            if _kept(it, e[3], e[4]) == 'kept':
+                continue
+            o, via = reach[id(e[1])]
+            bad = True
+            if o is m:
+                if e[2] not in deff['Macro']:
+                    rep.undecided('R09.19', '%s:%s:%s-path-writes-bookkeeping-member(Macro.%s)' % (U, fn, kind, e[2]), 'a path of expand_macro stores into the member %s of the Macro, which is not a member the defining functions set' % e[2], where=where)
+                    continue
+                A.ob('R09.19', '%s:%s:%s-path-writes-the-definition(Macro.%s)' % (U, fn, kind, e[2]), False,
+                     'a path of expand_macro (%s) stores %s into the member %s of the Macro that find_macro returned: the definition that #define stored is rewritten by a use of the macro, and every later occurrence of the name is replaced from the rewritten definition. A replacement list that has already been through the ## pass is run through it again by the next expansion - a token `##` that a paste PRODUCED (C11 6.10.3.3p4: `#define hash_hash # ## #`) is an ordinary token in the result but an operator when read again, so the second use of hash_hash is rejected; pasted spellings, hide sets and origins of one invocation leak into the next' % (
+                         kind, strip_ids(repr(e[4])), e[2]), where, facts)
+            else:
+                A.ob('R09.19', '%s:%s:%s-path-writes-stored-%s(%s)' % (U, fn, kind, {'Token': 'replacement-list-token', 'MacroParam': 'parameter'}.get(o.tname, 'definition-data'), e[2]), False,
+                     'a path of expand_macro (%s) stores %s into the member %s of an object of the stored definition itself (%s, reached through %s), not of a copy: the next occurrence of the macro name is replaced from the changed definition' % (
+                         kind, strip_ids(repr(e[4])), e[2], strip_ids(o.label or o.tname), via), where, facts)
+        if not bad:
+            n += 1
+            A.ob('R09.19', '%s:%s:%s-path-leaves-the-definition-as-stored' % (U, fn, kind), True, '', where, facts)
+    A.flush()
+    if n == 0:
+        rep.undecided('R09.19', '%s:%s:no-path-with-a-macro' % (U, fn), 'no path of expand_macro on which find_macro returns a macro leaves the definition untouched (or none was found)', where=where)
+
+
+def _pass_leaves_stored_list(it, ctx, A, g, wg, body):
+    """R09.19 on a pass over the replacement list of an object-like macro: the list it is handed IS the stored definition"""
+    ids = set(id(b) for b in body)
+    facts = {'path': ctx.trail}
+    bad = False
+    for b in body:
+        if b.meta.get('made_by') is not None or b.meta.get('created') or b.meta.get('copy_of') is not None:
+            bad = True
+            A.ob('R09.19', '%s:%s:stored-replacement-list-token-overwritten' % (U, g), False,
+                 '%s overwrites a token of the list it is handed (`*tok = *paste(..)` / `*tok = *copy`) - that list is m->body, the replacement list #define stored: the definition is changed by the first expansion and the next one works on the result' % g, wg, facts)
+    for e in ctx.events:
+        if e[0] != 'fstore' or not isinstance(e[1], Obj) or id(e[1]) not in ids:
+            continue
+        if e[1].meta.get('made_by') is not None or e[1].meta.get('created') or e[1].meta.get('copy_of') is not None:
+            continue
+        if _kept(it, e[3], e[4]) == 'kept':
+            continue
+        bad = True
+        A.ob('R09.19', '%s:%s:stored-replacement-list-token-written(%s)' % (U, g, e[2]), False,
+             '%s stores into the member %s of a token of the list it is handed, not of a copy - that list is m->body, the replacement list #define stored: the definition is changed by the first expansion (tokens unlinked, flags or spellings of one use left behind) and the next occurrence of the name is replaced from the changed list' % (g, e[2]), wg, facts)
+    if not bad:
+        A.ob('R09.19', '%s:%s:writes-only-its-own-copies' % (U, g), True, '', wg, facts)
+
+
+# ------------------------------------------- the replaced sequence as -E shows it ---
+def r_observed_sequence(P, rep):
+    """R09.20: 6.10.3 prescribes a SEQUENCE OF TOKENS; -E is where it is observed. Tokens that replacement brings next to each
+    other (replacement | following text, argument | replacement-list token, and the two neighbours of an invocation that
+    expands to nothing - which carry no trace of the macro at all) were not written next to each other in the source, so
+    nothing but their spellings can tell whether they may be printed without white space between them."""
+    from ..report import Report, reissue
+    from . import c19
+    rep.rule('R09.20', 'the token sequence that macro replacement yields is the token sequence -E shows: two tokens that meet without white space at the seam of a replacement (before, inside or after it; around an invocation that expands to nothing, whose neighbours are plain source tokens) are written apart by print_tokens whenever their spellings put together would be read back as other tokens - for every pair of spellings, on every path, whatever the other members (origin, hide set, position) of the two tokens hold, and the question is asked about the token written immediately before (R19.4/R19.5 and the spelling obligation of R19.1 of C19 re-issued)', floor=100)
+    sub = Report('C19', rep.tier, rep.seed)
+    for f in (lambda: c19.r_separation(P, sub), lambda: c19.r_printer(P, sub)):
+        try:
+            f()
+        except AnalysisBroken as e:
+            rep.undecided('R09.20', 'main.c:print_tokens:analysis', 'analysis could not proceed: %s' % e)
+
+    def keep(o):
+        k = o['key']
+        return k.startswith(('R19.4:', 'R19.5:')) or k.startswith('R19.1:main.c:print_tokens:spelling-of-token')
+    why = 'the preprocessed token sequence is not the one C11 6.10.3 prescribes for the source (`a +NONE()++b` with an empty NONE is the tokens a + ++ b; `-N` with `#define N -1` is - -1): '
+    reissue(rep, 'R09.20', sub, why, keep=keep)
+
 
 
 # ------------------------------------------- white space of the tokens replacement produces ---
